@@ -34,11 +34,28 @@ func (runInfo *runInfoStruct) invokeLetExpr() {
 	case *ast.DerefExpr:
 		runInfo.invokeLetDerefExpr(expr)
 
+	// ParenExpr
+	case *ast.ParenExpr:
+		runInfo.expr = expr.SubExpr
+		runInfo.invokeLetExpr()
+
 	default:
 		runInfo.err = newStringError(expr, "invalid operation")
 		runInfo.rv = nilValue
 	}
 
+}
+
+// isPlaceExpr reports whether an expression names something that can be assigned to: a variable, a member, an element,
+// or what a pointer points to, possibly in parentheses.
+func isPlaceExpr(expr ast.Expr) bool {
+	switch e := expr.(type) {
+	case *ast.IdentExpr, *ast.MemberExpr, *ast.ItemExpr, *ast.DerefExpr:
+		return true
+	case *ast.ParenExpr:
+		return isPlaceExpr(e.SubExpr)
+	}
+	return false
 }
 
 // invokeLetMemberExpr assigns a value to a member expression.
@@ -119,7 +136,8 @@ func (runInfo *runInfoStruct) invokeLetMemberExpr(expr *ast.MemberExpr) {
 		runInfo.rv.Set(value)
 		if storeBack && slot.IsValid() {
 			slot.Set(structValue)
-		} else if storeBack {
+		} else if storeBack && isPlaceExpr(expr.Expr) {
+			// (the changed copy of a temporary - the result of a call - has nowhere to go, like the temporary itself)
 			runInfo.rv = structValue
 			runInfo.expr = expr.Expr
 			runInfo.invokeLetExpr()
